@@ -746,6 +746,11 @@ func init() {
 	register("C08", func(args []string) int {
 		run := evid.NewRun("C08", "exploration")
 		cases := c08Cases(run.Thorough())
+		// the shipped default timeouts against a slow upstream: 11 s of wall
+		// time, alongside everything else (sys_c08_defaults.go)
+		type sm struct{ sig, msg string }
+		defCh := make(chan sm, 1)
+		go func() { s, m := c08DefaultTimeouts(); defCh <- sm{s, m} }()
 		w := newC08World(30 * time.Second)
 		var mu sync.Mutex
 		evals, nontrivial, flaps := 0, 0, 0
@@ -817,6 +822,17 @@ func init() {
 		}
 		c08LBSequences(run, &evals, &nontrivial)
 		c08MoveSequences(run, &evals, &nontrivial)
+		if d := <-defCh; d.sig == "harness" {
+			if run.Violations() == 0 {
+				evid.Fatal("default-timeouts case: %s", d.msg)
+			}
+		} else {
+			evals++
+			nontrivial++
+			if d.sig != "" {
+				run.Violation("C08", d.sig, d.msg, map[string]any{"engine": "E4-C08", "failure_case": "default timeouts, upstream answers after 10.5s"})
+			}
+		}
 		c08Failures(run, &evals, &nontrivial)
 		c08Agent(run, &evals, &nontrivial)
 		c08Auth(run, &evals, &nontrivial)
